@@ -12,7 +12,7 @@ import random
 import vlib
 
 LEVEL = "model_checking"
-SQF = ["setg1", "setg2", "readg", "readcfg", "ppfail", "parsefail", "rterr", "rterr_spawned", "endless", "sleeper", "napper", "napper", "empty"]
+SQF = ["setg1", "setg2", "readg", "readcfg", "ppfail", "parsefail", "rterr", "rterr_spawned", "endless", "sleeper", "yielder", "napper", "napper", "empty"]
 CFG = ["cfgok", "cfgparsefail", "cfgppfail"]
 
 
@@ -48,7 +48,7 @@ def random_histories(rng, n, length):
                 h.append({"op": "call", "i": i, "type": rng.choice(["p", "1", "?"]), "kind": rng.choice(["setg1", "ppfail", "parsefail", "empty"])})
             else:
                 k = rng.choice(SQF)
-                if k in ("endless", "sleeper") and not alive[i]:
+                if k in ("endless", "sleeper", "yielder") and not alive[i]:
                     k = "readg"
                 h.append({"op": "call", "i": i, "type": "s", "kind": k})
         out.append(h)
